@@ -70,6 +70,10 @@ STRUCTS = {
     'sq_u1_unblocked': dict(mods=[1], l0=([1, 1, 1], [[1], [0], [1]], -1), l1='conj', qtotal=[0]),
     'sq_z3': dict(mods=[3], l0=([1, 2], [[2], [1]], 1), l1='conj', qtotal=[0]),
     'sq_u1z2': dict(mods=[1, 2], l0=([2, 1], [[0, 1], [-1, 0]], 1), l1='conj', qtotal=[0, 0]),
+    # two charges, sectors agree pairwise in one component (speigs); 'sq_u1z2_3' has a 3-dim block (ARPACK in the concrete run)
+    'sq_u1z2_b': dict(mods=[1, 2], l0=([1, 2, 1], [[0, 0], [0, 1], [1, 0]], 1), l1='conj', qtotal=[0, 0]),
+    'sq_u1z2_m': dict(mods=[1, 2], l0=([2, 1, 2], [[0, 1], [1, 1], [1, 0]], -1), l1='conj', qtotal=[0, 0]),
+    'sq_u1z2_3': dict(mods=[1, 2], l0=([3, 1], [[0, 1], [0, 0]], 1), l1='conj', qtotal=[0, 0]),
     # tall matrices for orthogonal_columns (M > N)
     'tall_u1': dict(mods=[1], l0=([2, 2, 1], [[0], [1], [2]], 1), l1=([1, 1], [[0], [1]], -1), qtotal=[0]),
     'tall_unblocked': dict(mods=[1], l0=([1, 2, 1], [[1], [0], [1]], 1), l1=([1, 1], [[1], [0]], -1), qtotal=[0]),
@@ -605,6 +609,77 @@ def expm_case(ctx, tier, struct, mods=None, qconjs=(1, -1), cplx=False, subset='
 
 
 # ------------------------------------------------------------------------------------------------------------------
+def speigs_case(ctx, tier, struct, mods=None, qconjs=(1, -1), cplx=True, subset='choose', k=1, eigv=True):
+    """npc.speigs(a, charge_sector, k): the eigensolver gets the block of exactly the requested sector, the vectors are
+    eigenvectors of `a` living in that sector with qtotal == charge_sector"""
+    N = npc()
+    A, ch = build(ctx, tier, struct, mods, qconjs, cplx, subset, 'zero')
+    dA = D(A)
+    leg = A.legs[0]
+    n = leg.ind_len
+    tag = f'speigs[k={k}]'
+    mode = ctx.choice('sector', leg.block_number + 1)
+    if mode == leg.block_number:  # a sector that is (possibly) absent from the leg
+        sector = qvalue(ctx, tier, 'qs', ch, 3)
+    else:
+        sector = ch.make_valid(leg.get_charge(mode))
+    qf = leg.to_qflat()
+    idx = [i for i in range(n) if Bd.eq_all(ctx, ch.make_valid(qf[i] * leg.qconj), ch.make_valid(sector))]
+    blocked = leg.is_blocked()
+    stored = any(int(leg.slices[int(a)]) in idx and int(leg.slices[int(b)]) in idx for a, b in A._qdata)
+    real_declared = (not cplx) and blocked
+    if ctx.symbolic and real_declared:
+        # model of the declared dtype: the concrete twin of this tensor is float64 (its entries are real symbols); tenpy derives
+        # the dtype of the returned vectors from it.  (Only on blocked legs: no hidden pipe that would allocate float buffers.)
+        A.dtype = np.dtype(np.float64)
+    try:
+        res = N.speigs(A, sector, k, return_eigenvectors=eigv) if not eigv else N.speigs(A, sector, k)
+    except ValueError:
+        ctx.prove(not idx, f'{tag}: ValueError only for a charge sector that is absent from the leg')
+        return
+    except TypeError as e:
+        ctx.fail(f'{tag}: TypeError' + (' [no stored block in the requested sector]' if not stored else ''), str(e)[:100])
+        return
+    finally:
+        if ctx.symbolic:
+            A.dtype = np.dtype(object)
+    ctx.note('speigs_results')
+    ctx.prove(bool(idx), f'{tag}: an absent charge sector raises ValueError')
+    unchanged(ctx, A, dA, tag)
+    restr = dA[np.ix_(idx, idx)]
+    if ctx.symbolic and stored:
+        import symx.engine as E
+        given = E.cur().__dict__.get('_speigs_blocks', [])
+        ctx.prove(len(given) >= 1, f'{tag}: the eigensolver is called for a stored block')
+        if given:
+            ctx.prove_eq(given[-1], restr, f'{tag}: the block handed to the eigensolver is the restriction of a to the requested sector')
+    if not eigv:
+        W = res
+        ctx.prove(len(W) == min(k, len(idx)), f'{tag}: min(k, dimension of the sector) eigenvalues')
+        return
+    W, V = res
+    ctx.prove(len(W) == len(V) == min(k, len(idx)), f'{tag}: min(k, dimension of the sector) eigenpairs')
+    for w, v in zip(W, V):
+        if real_declared or not ctx.symbolic:
+            ok = v.dtype.kind in 'cO' if ctx.symbolic else all(np.can_cast(b.dtype, v.dtype, 'same_kind') for b in v._data)
+            if not ok:
+                ctx.fail(f'{tag}: eigenvector declared with a real dtype holds complex data [real input]')
+                return
+        if ctx.symbolic:
+            v.dtype = np.dtype(object)
+        if not charge_rule(ctx, v, f'{tag}: eigenvector'):
+            return
+        same_qtotal(ctx, v, sector, ch, f'{tag}: eigenvector has qtotal == charge_sector')
+        same_leg(ctx, v.legs[0], A.legs[0], f'{tag}: eigenvector lives on the first leg of a')
+        dv = D(v)
+        ctx.prove_eq(np.dot(dA, dv), w * dv, f'{tag}: a v == w v')
+        out = [i for i in range(n) if i not in idx]
+        ctx.prove_eq(dv[out], np.zeros(len(out)), f'{tag}: eigenvector vanishes outside the requested sector')
+        ctx.prove_eq(np.dot(restr, dv[idx]), w * dv[idx], f'{tag}: (w, v) is an eigenpair of the restriction of a to the sector')
+        ctx.prove_eq(np.sum(np.conj(dv) * dv), 1., f'{tag}: eigenvector normalised')
+
+
+# ------------------------------------------------------------------------------------------------------------------
 def pinv_case(ctx, tier, struct, mods=None, qconjs=(1, -1), cplx=False, subset='all', qtotal='zero', mp=True):
     N = npc()
     A, ch = build(ctx, tier, struct, mods, qconjs, cplx, subset, qtotal)
@@ -842,6 +917,10 @@ def CASES(tier, seed):
         add('eig_qtotal_case', f'B.eig-qtotal[{st}]', tier='B', struct=st)
     simple('expm_case', 'expm', 'B', 'sq_u1', True, **B)
     simple('expm_case', 'expm', 'B', 'sq_u1_unblocked', True, **B)
+    for st, cplx, k in (('sq_u1z2_b', True, 1), ('sq_u1z2_b', True, 2), ('sq_u1z2_b', False, 1), ('sq_u1z2_m', True, 1), ('sq_u1z2_m', True, 3),
+                        ('sq_u1z2_3', True, 1), ('sq_u1', True, 2), ('sq_u1_unblocked', True, 1), ('sq_z3', True, 1)):
+        add('speigs_case', f'B.speigs[{st},{c_(cplx)},k={k}]', tier='B', struct=st, cplx=cplx, k=k, **B)
+    add('speigs_case', 'B.speigs[sq_u1z2_b,c,k=2,eigenvalues only]', tier='B', struct='sq_u1z2_b', cplx=True, k=2, eigv=False, **B)
     for st, cplx in (('tall_u1', False), ('tall_u1', True), ('tall_unblocked', False), ('u1', False), ('sq_u1', False)):
         simple('ortho_case', 'orthogonal_columns', 'B', st, cplx, **B)
     # ------------------------------------------------------------------ Tier A (symbolic charges)
@@ -880,6 +959,11 @@ def CASES(tier, seed):
             if mods == [1] and qc0 == 1:
                 eig('A', 'asq2', sort='m>', **kw)
         add('eig_qtotal_case', f'A.eig-qtotal[asq2,mod={mods}]', tier='A', struct='asq2', mods=mods, qconjs=[1, -1])
+    # speigs with two symbolic charges (U1 x Z2): blocks whose charges agree in one component only are paths
+    for qc0 in (1, -1):
+        add('speigs_case', f'A.speigs[asq2,mod=[1, 2],qconj={qc0},k=1]', tier='A', struct='asq2', mods=[1, 2], qconjs=[qc0, -qc0], cplx=True,
+            subset='all', k=1)
+    add('speigs_case', 'A.speigs[asq2,mod=[3],qconj=1,k=2]', tier='A', struct='asq2', mods=[3], qconjs=[1, -1], cplx=True, subset='all', k=2)
     if not thorough:
         return cases
     # ------------------------------------------------------------------ thorough: the full option product and larger shapes
